@@ -817,6 +817,10 @@ func (r *foRun) oracleC05() {
 				continue
 			}
 
+			if !prev.done || prev.ret > o.inv {
+				continue // not a sequence: a Get issued by a builder overlaps the Get it was issued from
+			}
+
 			if containsStr(o.locksAtInvoke, o.key) {
 				continue // the previous owner was still in flight: this Get may wait for it
 			}
